@@ -68,6 +68,11 @@ pub fn float_leaves() -> Vec<OwnedTerm> {
 }
 
 pub fn atom_leaves(full: bool) -> Vec<OwnedTerm> {
+    atom_names(full).iter().map(|s| atom(s)).collect()
+}
+
+/// The atom names of the alphabet as plain strings (oracles compare against these, never against `Atom::new`).
+pub fn atom_names(full: bool) -> Vec<String> {
     let mut v: Vec<String> = vec![
         "".into(), "a".into(), "ab".into(), "Elixir.Foo".into(), "é".into(), "€".into(), "😀".into(), "a".repeat(255), "a".repeat(256),
         "é".repeat(127), "é".repeat(128), "é".repeat(255), "b".repeat(65535), "ok".into(), "nil".into(), "undefined".into(), "true".into(),
@@ -90,7 +95,7 @@ pub fn atom_leaves(full: bool) -> Vec<OwnedTerm> {
     if full {
         v.push("€".repeat(21845)); // exactly 65535 bytes of 3-byte characters
     }
-    v.iter().map(|s| atom(s)).collect()
+    v
 }
 
 pub fn binary_leaves() -> Vec<OwnedTerm> {
